@@ -264,8 +264,12 @@ func scenarioDelayedConfirmation(r *vh.Rand) (string, []string) {
 	g.nextKey++
 	g.do(fmt.Sprintf("R 1 %d 1", g.nextKey)) // read A
 	g.update(1)
-	// heartbeats go out; only replica 2's confirmation comes back, 3's is held
-	held := func(m pb.Message) bool { return !(m.Type == pb.HeartbeatResp && m.From == 3) }
+	// heartbeats go out; only replica 2's confirmation comes back, 3's is held - or both are
+	// held and read A is still pending when read B joins the queue behind it
+	both := r.Bool()
+	held := func(m pb.Message) bool {
+		return !(m.Type == pb.HeartbeatResp && m.To == 1 && (m.From == 3 || both))
+	}
 	g.settle(held)
 	g.update(1)
 	// partition the old leader; 2 and 3 elect and commit
@@ -553,8 +557,50 @@ func scenarioPromotedNonVotingVotes(r *vh.Rand) (string, []string) {
 	return g.c.Header(), g.ops
 }
 
+// scenario 8: five voters; the leader is left with a single follower, the other three elect a
+// new leader and commit; a read on the old leader stays pending over several heartbeat
+// rounds, each acknowledged by the same single follower.
+func scenarioMinorityLeaderRepeatedAcks(r *vh.Rand) (string, []string) {
+	g := newScenarioGen(r, 5, uint64(6+r.Intn(3)), false, false)
+	if !g.elect(1, nil) {
+		return g.c.Header(), g.ops
+	}
+	g.propose(1)
+	g.settle(nil)
+	g.dropPool(func(m pb.Message) bool { return true })
+	major := only(3, 4, 5)
+	if !g.elect(3, major) {
+		return g.c.Header(), g.ops
+	}
+	g.propose(3)
+	g.settle(major)
+	g.update(3)
+	g.settle(major)
+	// read on the old leader, directly or forwarded by its only follower
+	g.nextKey++
+	rd := uint64(1)
+	if r.Bool() {
+		rd = 2
+	}
+	g.do(fmt.Sprintf("R %d %d 1", rd, g.nextKey))
+	g.update(rd)
+	minor := only(1, 2)
+	g.settle(minor)
+	for i := 0; i < 4 && !g.Stopped; i++ {
+		g.do("T 1")
+		g.update(1)
+		g.settle(minor)
+		g.update(2)
+		g.settle(minor)
+	}
+	g.update(1)
+	g.update(2)
+	return g.c.Header(), g.ops
+}
+
 var scenarios = []func(r *vh.Rand) (string, []string){
 	scenarioTransferWithUnappliedChange,
 	scenarioVoteRace, scenarioTransferRemove, scenarioDeposedLeaderRead, scenarioDelayedConfirmation,
 	scenarioReelectedLeaderRead, scenarioWitnessGuardsCommitted, scenarioPromotedNonVotingVotes,
+	scenarioMinorityLeaderRepeatedAcks,
 }
